@@ -1,8 +1,6 @@
 //! In-process property checks that need the compiler library (`pavexc`).
-mod c20;
-
+use cprops::c20;
 use vcommon::{Check, Settings};
-pub use vcommon::util::catch;
 
 fn main() {
     let args: Vec<String> = std::env::args().collect();
